@@ -54,11 +54,43 @@ def _scenarios(facts):
             out.append(("enum", "Token::Global", [g]))
         return out
 
+    def all_pairs():
+        """a token list in which every ordered pair of token kinds (a kind followed by itself included) stands side by side
+        at least once — a de Bruijn sequence of order 2 over the kinds; every token has its own unknown payload, every option
+        its own thread count"""
+        k = len(tv)
+        seq, a = [], [0] * (2 * k)
+
+        def db(t, p):
+            if t > 2:
+                if 2 % p == 0:
+                    seq.extend(a[1 : p + 1])
+            else:
+                a[t] = a[t - p]
+                db(t + 1, p)
+                for j in range(a[t - p] + 1, k):
+                    a[t] = j
+                    db(t + 1, t)
+
+        db(1, 1)
+        seq.append(seq[0])
+        out, n = [], 100
+        for i, ix in enumerate(seq):
+            v = tv[ix]
+            if v == "Global":
+                n += 1
+                out.append(("enum", "Token::Global", [_opt(thr, n)]))
+            else:
+                nf = len(facts.variant_fields("Token", v))
+                out.append(("enum", "Token::%s" % v, [P.Opq("%s payload #%d" % (v, i)) for _ in range(nf)]))
+        return out
+
     return [
         Scenario("two leading options, two among the tokens", [_opt(thr, ("some", 1)) if False else _opt(thr, 1), _opt(thr, 2)], toks([_opt(thr, 3), _opt(thr, 4)]), False),
         Scenario("depth leading, threads among the tokens", [_opt(dep)], toks([_opt(thr, 7)]), False),
         Scenario("threads leading, depth among the tokens", [_opt(thr, 5)], toks([_opt(dep)]), False),
         Scenario("no option at all", [], toks([]), False),
+        Scenario("every ordered pair of token kinds side by side", [_opt(thr, 1)], all_pairs(), False),
         Scenario("only leading options, nothing after them", [_opt(thr, 9), _opt(dep)], None, True),
     ]
 
